@@ -566,10 +566,11 @@ class ServiceAttribute:
     @staticmethod
     def is_uuid_in_value(uuid: core.UUID, value: DataElement) -> bool:
         # Find if a uuid matches a value, either directly or recursing into sequences
+        # and alternatives
         if value.type == DataElement.UUID:
             return value.value == uuid
 
-        if value.type == DataElement.SEQUENCE:
+        if value.type in (DataElement.SEQUENCE, DataElement.ALTERNATIVE):
             for element in value.value:
                 if ServiceAttribute.is_uuid_in_value(uuid, element):
                     return True
